@@ -418,11 +418,16 @@ def proxy_uri_case(exe, r, c, run, witness, stats):
         # client's first OSCORE exchange never completes and a second send would wait for it)
         for k in range(1):
             host = r.choice([b"other.example", b"h.example.com", b"a-rather-long-host-name.example.org"])
-            port = r.choice([None, None, 5683, 7777, 61616])
+            # (every scheme a Proxy-Uri may name, each with its own default port: RFC 7252 6.4
+            # omits Uri-Port exactly when the port is the scheme's default)
+            scheme, dflt = r.choice([(b"coap", 5683), (b"coap", 5683), (b"coaps", 5684),
+                                     (b"http", 80), (b"https", 443), (b"coap+tcp", 5683),
+                                     (b"coap+ws", 80), (b"coaps+ws", 443)])
+            port = r.choice([None, None, 5683, 5684, 80, 443, 7777, 61616])
             segs = [r.choice([b"abc", b"def", b"x", b"a-longer-segment-%d" % k])
                     for _ in range(r.choice([0, 1, 2, 4]))]
             query = [r.choice([b"x=1", b"y=22", b"flag"]) for _ in range(r.choice([0, 0, 1, 2]))]
-            uri = b"coap://" + host + (b":%d" % port if port else b"") + \
+            uri = scheme + b"://" + host + (b":%d" % port if port else b"") + \
                 (b"/" + b"/".join(segs) if segs else b"") + (b"?" + b"&".join(query) if query else b"")
             code = r.choice([1, 1, 2, 5])
             pl = bytes(r.getrandbits(8) for _ in range(r.choice([3, 40]))) if code != 1 else b""
@@ -443,13 +448,16 @@ def proxy_uri_case(exe, r, c, run, witness, stats):
             wires = [e for e in sim.log[mark:] if e["e"] == "wire" and e["from"].startswith("10.0.0.1")]
             reqs = [e for e in sim.log[mark:] if e["e"] == "req" and e.get("n") == 1]
             want_outer = [(3, host)] + ([(7, port.to_bytes(2, "big").lstrip(b"\0"))]
-                                        if port and port != 5683 else []) + [(39, b"coap")]
+                                        if port and port != dflt else []) + [(39, scheme)]
             seen = []
             if reqs and reqs[0]["opts"]:
                 for item in reqs[0]["opts"].split(";"):
                     a, b = item.split("=")
                     seen.append((int(a), bytes.fromhex(b)))
-            if not reqs or [x for x in seen if x[0] in (3, 7, 39)] != want_outer:
+            # (a Uri-Port that states the scheme's default port says the same as none)
+            also_ok = [(3, host), (7, dflt.to_bytes(2, "big").lstrip(b"\0")), (39, scheme)] \
+                if (port is None or port == dflt) else want_outer
+            if not reqs or [x for x in seen if x[0] in (3, 7, 39)] not in (want_outer, also_ok):
                 run.violation("oscore-proxy-uri-outer-options-differ", dict(wv, seen=repr(seen)),
                               "Proxy-Uri %s: the proxy was handed %r, RFC 8613 4.1.3.3 gives %r" %
                               (uri.decode(), [x for x in seen if x[0] in (3, 7, 39)], want_outer))
